@@ -87,7 +87,7 @@ class CanDynamicSchema: public ICanSchema {
 
                 bool sid_match = impl.fields.find("id") != impl.fields.end() && sid == std::stoi(impl.fields.at("id"));
 
-                bool bus_match = impl.fields.find("bus") != impl.fields.end() && bus_name_str == impl.fields.at("bus");
+                bool bus_match = impl.fields.find("bus") != impl.fields.end() && bus_name_str == impl.fields.at("bus").substr(0, bus_name.size());
 
                 if (sid_match && bus_match) {
                     return impl.name;
